@@ -610,8 +610,10 @@ func runC15FS(c C15FSCase) (bool, error) {
 			}
 			if cacheOn {
 				switch {
-				case isCached && got == cached.version && has && cur.root == cached.root && cur.version == cached.version && cur.ts > cached.ts && autoReload:
-					cache[name] = cur // touched: the reload refreshes the remembered timestamp
+				case isCached && got == cached.version && autoReload && files[cached.root][name].version == cached.version && files[cached.root][name].ts > cached.ts:
+					// touched: the reload re-read the same content from the file the cached copy
+					// came from (whatever other search paths hold) and remembers the new timestamp
+					cache[name] = files[cached.root][name]
 				case !isCached || got != cached.version:
 					for _, m := range files {
 						if it, ok := m[name]; ok && it.version == got {
